@@ -1354,6 +1354,39 @@ def literal_tables(chk):
     return n
 
 
+def leading_unnamed_bitfields(chk):
+    """positional initialisers of structures whose first named member is preceded by unnamed bit-fields (defect 105: the cursor
+    entered the structure at offset 0): expected images written out by hand, x86_64-sysv"""
+    srv = fs.server('fs')
+    units = [
+        ('struct { int : 8; char c; } o = {5};', '0005'),
+        ('struct { int : 4; int x : 4; } o = {3};', '30000000'),
+        ('struct { int : 32; int a; int b; } o = {5, 6};', '000000000500000006000000'),
+        ('struct { int : 0; char c; int d; } o = {1, 2};', '0100000002000000'),
+        ('struct { char a; int : 8; char c; } o = {1, 2};', '010002'),
+        ('struct { int : 16; short s; struct { int : 8; char c; } in; } o = {1, {2}};', '000001000002'),
+        ('struct { int : 16; short s; struct { int : 8; char c; } in; } o = {1, 2};', '000001000002'),
+        ('struct { long : 40; char c[2]; } o = {{7, 8}};', '00000000000708'),
+        ('struct { int : 8; char c; } o[2] = {5, 6};', '00050006'),
+        ('struct { int : 8; char c; } o[2] = {{5}, {6}};', '00050006'),
+    ]
+    n = 0
+    for src, want in units:
+        for store in ('static', 'auto'):
+            n += 1
+            if store == 'static':
+                r = srv.compile(src + '\n', cpu_s=10)
+                if r.status != 0:
+                    chk.violation('unnamed-bitfield-first/rejected', '%s rejected: %s' % (src, r.err[:160]), files={'input.c': src.encode()})
+                    continue
+                o = L.parse_qbe_data(r.out).get('o')
+                got = o.image.hex() if o else None
+                if got != want:
+                    chk.violation('unnamed-bitfield-first/positional-initialiser-misplaced', '%s: image %s, expected %s' % (src, got, want), files={'input.c': src.encode()},
+                                  cmd='$CPROC_QBE input.c')
+    return n
+
+
 def main(chk):
     quick = chk.quick
     TOTKEYS = ('cases', 'evals', 'compared', 'witness_warned', 'witness_split', 'witness_differ', 'expected_reject', 'd_run',
@@ -1455,7 +1488,7 @@ def main(chk):
     nshared = shared_typedef(chk)
     nste = string_then_element(chk)
     nempty = empty_braces(chk)
-    nlit = literal_tables(chk)
+    nlit = literal_tables(chk) + leading_unnamed_bitfields(chk)
     cov = {
         'states': len(states),
         'transitions': len(trans),
